@@ -2,7 +2,7 @@
 import vlib
 
 SRC = 'harness/c07_reader_faults.cpp'
-FLAGS = ['-Wl,--wrap=read']
+FLAGS = ['-Wl,--wrap=read', '-Wl,--wrap=close']
 
 
 def builds(tier):
